@@ -1244,6 +1244,9 @@ def run(ctx):
     cache_lines = to_lines("tplcache", cache_src)
     streams.append(("cache", cache_lines, False))
     impl, model, flat = compare(ctx, exe, drv, streams)
+    # scalar / SSE2 / AVX2 builds: the same lines (malformed and truncated ones included), same answers, no fault
+    step = 6 if not ctx.thorough else 2
+    core.simd_builds(ctx, "template_harness.cpp", flat[::step], impl[::step], "template parse+render", tag="c01")
     ndiff = sum(1 for l, o in zip(flat, impl) if l.startswith("tplcache") and o.startswith("C diff"))
     ctx.notes.append("tplcache: %d lines, %d 'C diff' (reported under C17, not a C01 failure)" % (len(cache_lines), ndiff))
     # ---- the open statement ParseWF, evaluated: `wf` (Model/Tmpl/WF.lean) of what the model's parse returns,
@@ -1282,5 +1285,5 @@ def run(ctx):
 
 
 FINISH = dict(level="proof",
-              rule="grammar-generated templates (all seven tag kinds, nesting <= 3, both quote kinds and attribute orders) x value trees of all kinds; malformed: truncation at sampled (quick) / every (thorough) offset, delete/duplicate/swap/replace one delimiter, splices, fragment soup, bracket/index edge names, nesting 9..17 (..300 thorough), names of 254..768 units, attribute padding 240..600 and >= 65536; every line in width 1, every 5th (quick) / all (thorough) in widths 2, 4, wchar_t with units beyond 8 bits; tail-echo: unresolved {var:NAME} with & / partial entities in NAME ending the exact-size buffer, four widths; tag trees compared textually; non-trivial = the template contains '{' or '<'",
+              rule="every 6th (quick) / 2nd (thorough) line repeated in SSE2 and AVX2 builds of the harness; grammar-generated templates (all seven tag kinds, nesting <= 3, both quote kinds and attribute orders) x value trees of all kinds; malformed: truncation at sampled (quick) / every (thorough) offset, delete/duplicate/swap/replace one delimiter, splices, fragment soup, bracket/index edge names, nesting 9..17 (..300 thorough), names of 254..768 units, attribute padding 240..600 and >= 65536; every line in width 1, every 5th (quick) / all (thorough) in widths 2, 4, wchar_t with units beyond 8 bits; tail-echo: unresolved {var:NAME} with & / partial entities in NAME ending the exact-size buffer, four widths; tag trees compared textually; non-trivial = the template contains '{' or '<'",
               checker_cmd="cd lean && lake build Qentem.Props.C01 && lake env lean <#print axioms of the listed theorems>")
